@@ -1079,3 +1079,51 @@ func VerifH18p() {
 		vAssert("retained-query-unchanged", vEqStr(kept[i], string(copies[i])))
 	}
 }
+
+// ---------------------------------------------------------------------------
+// H10s — the limit is ONE limit, the same for every message type (C10): with
+// a limit of 32768 bytes, an extended-query cycle whose statement and portal
+// name is 10050 bytes long (longer than any "small message" bound another
+// implementation may know): Parse, Bind, Describe, Execute, Close and Sync all
+// carry a body below the limit and are all processed normally.
+// ---------------------------------------------------------------------------
+func VerifH10s() {
+	n := vParam("NAME", 10050)
+	name := make([]byte, n)
+	for i := range name {
+		name[i] = 'n'
+	}
+	name[n-1] = nondetByte()
+	vAssume(name[n-1] != 0)
+	execs := 0
+	stmt := func(ctx context.Context, dw DataWriter, params []Parameter) error {
+		execs++
+		return dw.Complete("T")
+	}
+	parse := func(ctx context.Context, query string) (PreparedStatements, error) {
+		return Prepared(NewStatement(stmt)), nil
+	}
+	srv, err := NewServer(parse, MessageBufferSize(32768))
+	vAssert("newserver-ok", err == nil)
+	input := vCat(
+		vMsgBytes('P', vCat(vCStr(name), vCStr([]byte("q")), vU16(0))),
+		vMsgBytes('D', vCat([]byte{'S'}, vCStr(name))),
+		vMsgBytes('B', vCat(vCStr(name), vCStr(name), vU16(0), vU16(0), vU16(0))),
+		vMsgBytes('D', vCat([]byte{'P'}, vCStr(name))),
+		vMsgBytes('E', vCat(vCStr(name), vU32(0))),
+		vMsgBytes('C', vCat([]byte{'P'}, vCStr(name))),
+		vMsgBytes('C', vCat([]byte{'S'}, vCStr(name))),
+		vMsgBytes('S', nil))
+	w := &vWorld{srv: srv}
+	w.conn = vNewConn(input)
+	w.ses, w.rd, w.wr = vSession(srv, w.conn)
+	w.ctx = vCtx(srv)
+	for i := 0; i < 8; i++ {
+		_, e := w.step()
+		vAssert("connection-stays-up", e == nil)
+	}
+	vAssert("every-message-below-the-limit-is-processed", vTypes(w.conn.out) == "1tn2nC33Z")
+	vAssert("statement-ran-once", execs == 1)
+	vAssert("wire-wellformed", vWireOK(w.conn.out))
+	vReach("control-messages-longer-than-ten-thousand-bytes")
+}
